@@ -649,3 +649,13 @@ mut("C12", "r7-updateapikeys-leaks-lock", "api/authentication.go",
     "\tapiKeysLock.Lock()\n\tdefer apiKeysLock.Unlock()\n\n\tlog.Debug(\"api: importing", "\tapiKeysLock.Lock()\n\n\tlog.Debug(\"api: importing", "C12-R7|api.updateAPIKeys")
 mut("C02", "r9-hashmap-put-leaks-lock", "database/storage/hashmap/map.go",
     "\thm.dbLock.Lock()\n\tdefer hm.dbLock.Unlock()\n\n\thm.db[r.DatabaseKey()] = r\n\treturn r, nil", "\thm.dbLock.Lock()\n\n\thm.db[r.DatabaseKey()] = r\n\treturn r, nil", "C02-R9|database/storage/hashmap.(*HashMap).Put")
+mut("C13", "r7-wrapper-format-before-deleted", "database/record/wrapper.go",
+    "\tif w.Meta().Deleted > 0 {\n\t\treturn nil, nil\n\t}\n\n\tif format != dsd.AUTO && format != w.Format {\n\t\treturn nil, errors.New(\"could not dump model, wrapped object format mismatch\")\n\t}\n", "\tif format != dsd.AUTO && format != w.Format {\n\t\treturn nil, errors.New(\"could not dump model, wrapped object format mismatch\")\n\t}\n\n\tif w.Meta().Deleted > 0 {\n\t\treturn nil, nil\n\t}\n", "C13-R7|database/record.(*Wrapper).Marshal / error exit", comment="round-2 seed C13-b1")
+mut("C08", "r7-wrapper-format-before-deleted", "database/record/wrapper.go",
+    "\tif w.Meta().Deleted > 0 {\n\t\treturn nil, nil\n\t}\n\n\tif format != dsd.AUTO && format != w.Format {\n\t\treturn nil, errors.New(\"could not dump model, wrapped object format mismatch\")\n\t}\n", "\tif format != dsd.AUTO && format != w.Format {\n\t\treturn nil, errors.New(\"could not dump model, wrapped object format mismatch\")\n\t}\n\n\tif w.Meta().Deleted > 0 {\n\t\treturn nil, nil\n\t}\n", "C08-R7|database/record.(*Wrapper).Marshal / error exit", comment="round-2 seed C13-b1")
+mut("C17", "r2-probe-renames-onto-destination", "utils/renameio/tempfile.go",
+    "os.Rename(testsrc.Name(), testdest.Name())", "os.Rename(testsrc.Name(), dest)", "C17-R2|utils/renameio.tempDir / call os.Rename / probe argument #2", comment="round-2 seed C17-b1")
+mut("C18", "r1-unpack-scope-via-join", "updater/unpacking.go",
+    "if !strings.HasPrefix(dstPath, tmpDir+string(filepath.Separator)) {", "if !strings.HasPrefix(dstPath, filepath.Join(tmpDir, string(filepath.Separator))) {", ["C18-R1|updater.(*Resource).unpackZipArchive", "C18-R2|updater.(*Resource).unpackZipArchive / extract entry"], comment="round-2 seed C18-b1")
+mut("C18", "r2-ensureabs-parent-accepted", "utils/structure.go",
+    "if relPath == \"..\" || strings.HasPrefix(relPath, \"..\"+string(filepath.Separator)) {", "if strings.HasPrefix(relPath, \"..\"+string(filepath.Separator)) {", "C18-R2|utils.(*DirStructure).EnsureAbsPath / ensure(relative dirs)", comment="round-2 seed C18-b2")
